@@ -1,7 +1,7 @@
 (** C07 — RETE agenda order, no-loop, group exclusivity and termination.
     Statements only; proofs in Proofs/ReteAgendaProofs.v.  Bounds come from the current source through
     Generated/Consts.v (tools/consts.py); TypedReteUlEngine::fire_all is the repaired one (748fa6c). *)
-From RRE Require Import Base.Sx Generated.Consts Model.ReteAgenda Proofs.ReteAgendaProofs.
+From RRE Require Import Base.Sx Generated.Consts Model.ReteAgenda Proofs.ReteAgendaProofs Proofs.ReteAgendaHistoryProofs.
 Open Scope Z_scope.
 
 (** get_next_activation returns an activation that is eligible — not a no-loop rule that fired
@@ -49,6 +49,24 @@ Print Assumptions C07_typed_fire_all_bounded.
 Theorem C07_incr_fire_all_bounded : forall rules, (snd (incr_fire_all rules) <= incr_max_iterations + 1)%N.
 Proof. exact incr_fire_all_bounded. Qed.
 Print Assumptions C07_incr_fire_all_bounded.
+
+(** Over whole histories of add / next / mark-fired / set-focus / reset from the initial agenda (no side condition):
+    [hist_sound] threads the list of activations marked fired since the last reset and demands, at every
+    get_next_activation that returns an activation x, that x is [fresh] for that list - if x is a no-loop rule, no
+    activation of that rule has been marked fired since the last reset (a no-loop rule fires at most once between resets);
+    if x belongs to an activation group, no member of that group has been marked fired since the last reset (at most one
+    rule of an activation group fires); if x is lock-on-active, its agenda group has not been locked since the last reset. *)
+Theorem C07_histories_fire_at_most_once : forall ops, hist_sound (init, None) [] ops.
+Proof. exact agenda_histories_sound. Qed.
+Print Assumptions C07_histories_fire_at_most_once.
+
+Example C07_histories_example :
+  let x := {| a_id := 0; a_name := 7; a_sal := 1; a_agroup := None; a_group := 0; a_noloop := true; a_lock := false; a_autofocus := false; a_created := 0 |} in
+  let y := {| a_id := 1; a_name := 7; a_sal := 1; a_agroup := None; a_group := 0; a_noloop := true; a_lock := false; a_autofocus := false; a_created := 1 |} in
+  map (fun o => match o with L [_; r] => r | _ => L [] end)
+      (run_from (init, None) [OAdd x; OAdd y; ONext; OMark; ONext; OReset; OAdd y; ONext])
+  = [L []; L []; L [A 0]; L []; L []; L []; L []; L [A 1]].
+Proof. vm_compute. reflexivity. Qed.
 
 (** non-vacuity: the pre-repair witness (one always-true rule without no-loop) fires exactly
     bound times in the typed engine and 1000 times in the incremental one *)
